@@ -155,6 +155,37 @@ def c03(tier='quick', seed=0):
                         R.case(key + ('then', nb), bad2)
                         if R.full:
                             return R.d
+    # a policy registered AFTER the enforcer has loaded once is a defined name like any other: its own check decides,
+    # not the default rule
+    from bounded.loader import Sandbox as _Sb, quiet as _quiet
+    _quiet()
+    for main in ({'default': '@'}, {'default': '!'}, {'a': 'role:x'}, None):
+        for dcfg in ('unset', 'name:default', 'check:@', 'name:zzz'):
+            sb = _Sb()
+            try:
+                if main is not None:
+                    sb.write('policy.yaml', main)
+                kw = {}
+                if dcfg.startswith('name:'):
+                    kw['default_rule'] = dcfg[5:]
+                elif dcfg.startswith('check:'):
+                    kw['default_rule'] = policy._parser.parse_rule(dcfg[6:])
+                e = policy.Enforcer(sb.conf(policy_file='policy.yaml'), **kw)
+                e.register_default(policy.RuleDefault('early', 'role:x'))
+                outcome(e.enforce, 'early', {}, {'roles': []})
+                e.register_default(policy.RuleDefault('late:admin', 'role:admin'))
+                e.register_default(policy.RuleDefault('late:open', '@'))
+                for q, roles, want in (('late:admin', ['member'], False), ('late:admin', ['admin'], True),
+                                       ('late:open', [], True), ('early', ['x'], True)):
+                    for rnd in (1, 2):
+                        got = outcome(e.enforce, q, {}, {'roles': roles})
+                        bad = None
+                        if got[0] != 'ret' or bool(got[1]) != want:
+                            bad = 'main file %r default=%s: %r registered after the first load, enforce(%r, roles=%r) call %d gave ' \
+                                  '%r, its own check gives %r' % (main, dcfg, q, q, roles, rnd, got[1:], want)
+                        R.case(('late-registration', str(main), dcfg, q, tuple(roles), rnd), bad)
+            finally:
+                sb.close()
     # the same table for rule sets that reach the enforcer through its own loader, in the three file layouts (main file,
     # main file + policy.d, policy.d only): the constructor argument / option chooses the default rule in all of them
     from bounded.loader import Sandbox, quiet
@@ -279,6 +310,24 @@ def c06(tier='quick', seed=0):
                        sample={'rules': rules_text, 'query': nm, 'roles': list(roles), 'decision': want})
                 if R.full:
                     return R.d
+        if has_default and it % 3 == 0:
+            # the CURRENT definition of the default rule answers for undefined names, also after it was redefined in place
+            # on a store that has already served a fallback lookup
+            for newdef in ('!', '@', 'role:r2'):
+                e.set_rules(policy.Rules.from_dict({'default': newdef}), overwrite=False, use_conf=False)
+                now = dict(rules_text, default=newdef)
+                for nm in use + ['undefined']:
+                    for roles in ((), ('r0',), ('r2',), ('r0', 'r1', 'r2')):
+                        try:
+                            want = ref_decide(now, default, nm, roles)
+                        except RecursionError:
+                            continue
+                        got = outcome(e.enforce, nm, {}, {'roles': list(roles)})
+                        bad = None
+                        if got[0] != 'ret' or bool(got[1]) != want:
+                            bad = 'rules=%r after the default rule was redefined in place to %r: enforce(%r, roles=%r) gave %r, ' \
+                                  'the current definitions give %r' % (rules_text, newdef, nm, list(roles), got[1:], want)
+                        R.case((tuple(sorted(rules_text.items())), 'redefined', newdef, nm, roles), bad)
     # nested checks are told the enforced policy name, not the alias
     seen3, seen4 = [], []
 
@@ -353,7 +402,9 @@ def c07(tier='quick', seed=0):
                                        'enforce(%r, do_raise=False) raised %s' % (name, plain[1]))
                                 continue
                             allowed = bool(plain[1])
-                            for exc, args, kwargs in ((None, (), {}), (MyExc, ('a1', 2), {'kw': 'v'})):
+                            for exc, args, kwargs in ((None, (), {}), (MyExc, ('a1', 2), {'kw': 'v'}), (None, (), {'kw': 'v'}),
+                                                      (None, ('a1',), {}), (None, ('a1', 2), {'kw': 'v', 'action': 'x'}),
+                                                      (MyExc, (), {}), (MyExc, (), {'kw': 'v'})):
                                 got = outcome(e.enforce, rule, target, dict(creds), True, exc, *args, **kwargs)
                                 bad = None
                                 if allowed:
@@ -367,8 +418,9 @@ def c07(tier='quick', seed=0):
                                         bad = 'custom exception built from %r %r' % (got[2].a, got[2].k)
                                     elif not exc and str(name) not in str(got[2]) and not as_check:
                                         bad = 'PolicyNotAuthorized does not name the policy: %s' % got[2]
-                                R.case((debug, name, tuple(roles), ti, as_check, exc is not None),
-                                       bad and 'debug=%s rule=%r roles=%r target#%d: %s' % (debug, name, roles, ti, bad))
+                                R.case((debug, name, tuple(roles), ti, as_check, exc is not None, len(args), len(kwargs)),
+                                       bad and 'debug=%s rule=%r roles=%r target#%d exc=%s extra args %r %r: %s' % (
+                                           debug, name, roles, ti, exc and exc.__name__, args, kwargs, bad))
                             # authorize
                             if not as_check:
                                 a = outcome(e.authorize, name, target, dict(creds))
@@ -383,7 +435,9 @@ def c07(tier='quick', seed=0):
                                 if name == 'allow':
                                     for dr in (False, True):
                                         for exc, args, kwargs in ((None, (), {}), (MyExc, (), {}), (MyExc, ('a1',), {}),
-                                                                  (MyExc, ('a1', 2), {'kw': 'v'}), (MyExc, (), {'kw': 'v'})):
+                                                                  (MyExc, ('a1', 2), {'kw': 'v'}), (MyExc, (), {'kw': 'v'}),
+                                                                  (None, (), {'kw': 'v'}), (None, ('a1',), {}),
+                                                                  (None, ('a1',), {'kw': 'v'})):
                                             ea = outcome(e.enforce, name, target, dict(creds), dr, exc, *args, **kwargs)
                                             aa = outcome(e.authorize, name, target, dict(creds), dr, exc, *args, **kwargs)
                                             same = ea[:2] == aa[:2] and (ea[0] == 'ret' or not exc or (
@@ -392,6 +446,17 @@ def c07(tier='quick', seed=0):
                                             bad = None if same else (
                                                 'authorize(%r, ..., do_raise=%r, exc=%s, *%r, **%r) gave %r, enforce with the same '
                                                 'arguments %r' % (name, dr, exc and exc.__name__, args, kwargs, aa[:2], ea[:2]))
+                                            # and enforce itself: the decision, or exactly the requested exception
+                                            if allowed:
+                                                want_e = ('ret', True)
+                                            elif not dr:
+                                                want_e = ('ret', False)
+                                            else:
+                                                want_e = ('exc', 'MyExc' if exc else 'PolicyNotAuthorized')
+                                            got_e = (ea[0], bool(ea[1]) if ea[0] == 'ret' else ea[1])
+                                            if not bad and got_e != want_e:
+                                                bad = 'enforce(%r, ..., do_raise=%r, exc=%s, *%r, **%r) gave %r, expected %r' % (
+                                                    name, dr, exc and exc.__name__, args, kwargs, got_e, want_e)
                                             R.case((debug, name, tuple(roles), ti, 'authorize-forms', dr, exc is not None,
                                                     len(args), len(kwargs)), bad)
                             if R.full:
@@ -562,7 +627,7 @@ def c14(tier='quick', seed=0):
     kinds = ['a', 'a.b', 'a.b.c', 'class', '1+', '', 'a.0', '[', '{', 'None', 'True', '1', "'x'", '"x"', 'lambda', 'a..b',
              '.', 'a.', '0x', '1e', 'not', '-', '(1', '1)', '[1]', 'roles', 'roles.x', 'a.b.c.d', 'import', '%', 'é', '0x' + 'f' * 4300, '{[]}', '{{}:1}', '{1:[]}', '()', '{}', 'b"x"', '...', '1j', '-1', '+1', '- 1', '1_0',
              '0o7', '1,', '*a', 'a,b', "'a''b'", '"""x"""', 'r"x"', 'f"x"', '1if', 'set()', '{1}', '[{}]', '[[]]']
-    matches = ['x', '1', 'True', '%(t)s', '%(missing)s', 'None', "['x']"]
+    matches = ['x', '1', 'True', '%(t)s', '%(missing)s', 'None', "['x']", '%(t.x)s', '%(t.x.y)s', '%(u.id)s', '%(t)s-%(t.x)s']
     from contracts.native import HUGE, safe
     jsons = [None, True, 0, 1.5, 'str', [], ['x'], [['x']], [{'b': 'x'}], {}, {'b': 'x'}, {'b': ['x', {'c': 'x'}]},
              {'b': {'c': {'d': 'x'}}}, [None], [[], {}], HUGE, -HUGE, [HUGE], {'b': HUGE}]
@@ -581,7 +646,11 @@ def c14(tier='quick', seed=0):
         rules_text = {'p': body, 'other': rng.choice(['@', '!', 'a.b:x'])}
         e = mk_enforcer(rules=policy.Rules.from_dict(rules_text))
         creds = {'roles': rng.choice([[], ['x'], ['X', 'y']]), 'a': rng.choice(jsons)}
-        target = rng.choice([{}, {'t': 'x'}, {'t': 1}, {'t': None}, {'t': ['x']}, {'t': HUGE}])
+        import types
+        import collections
+        target = rng.choice([{}, {'t': 'x'}, {'t': 1}, {'t': None}, {'t': ['x']}, {'t': HUGE}, {'t': {'x': 1}}, {'t': {'x': None}},
+                             {'t': True, 'u.id': 'x'}, {'t': {'x': {'y': 'x'}}}, {'t.x': 'x', 't': 5},
+                             types.MappingProxyType({'t': 'x'}), collections.UserDict({'t': 'x', 'u.id': 'x'})])
         # every fourth rule set is enforced with debug logging switched on (the call then also formats its arguments)
         import logging
         lg = logging.getLogger('oslo_policy.policy')
